@@ -154,6 +154,7 @@ def concurrent_case(args):
         obs = {}
         tagged = []
         moveok = []
+        data = []
         for op, o in zip(cmds, outs):
             if isinstance(o, Exception):
                 res["error"] = f"{op!r} raised {o!r}"
@@ -164,6 +165,7 @@ def concurrent_case(args):
             tagged.append(tg[-1] if tg else ("other", b"none"))
             mk = [r for r in rs if r[0] == "moveok"]
             moveok.append(mk[-1] if mk else None)
+            data.append([r for r in rs if r[0] in ("fetch", "body", "search")])
         for sid, name in mboxx.SESS.items():
             if name in w.sessions and sid not in obs:
                 ch = w.proxy(name).take()
@@ -176,7 +178,7 @@ def concurrent_case(args):
             o2 = h._run(w, op, mboxx.SESS[i])
             h.ops.append(op); h.obs.append(o2); h.snaps.append((None, h.snapshot(w)))
         post = h.snapshot(w)
-        res.update({"prefix": prefix, "cmds": cmds, "tagged": tagged, "moveok": moveok, "elapsed": elapsed, "final": post["boxes"],
+        res.update({"prefix": prefix, "cmds": cmds, "tagged": tagged, "moveok": moveok, "data": data, "elapsed": elapsed, "final": post["boxes"],
                     "stream_oracle": mboxx.replay_oracle(h)[:3], "uid_oracle": mboxx.uid_oracle(h)[:3],
                     "timed_out": any(b"timed out" in x for o in outs if not isinstance(o, Exception) for x in o),
                     "pack": h.pack})
@@ -216,7 +218,7 @@ def cmd_text(op):
     return f"t {k.upper()}"
 
 
-def atoms_term(i, op, tagged, moveok):
+def atoms_term(i, op, tagged, moveok, data=()):
     """a command as its documented steps"""
     want = mboxx.c_resp(tagged)
     if op[0] in ("copy", "move"):
@@ -230,7 +232,7 @@ def atoms_term(i, op, tagged, moveok):
         else:
             atoms.append(f"(AAdd {i} {s} {cstr(dst)} false {want})")
         return clist(atoms)
-    return clist([f"(AOp {mboxx.c_op(op)} {want})"])
+    return clist([f"(AOp {mboxx.c_op(op)} {want} {clist([mboxx.c_resp(r) for r in data])})"])
 
 
 def digest_term(boxes):
@@ -254,20 +256,20 @@ def schedule_level(ctx):
         if r.get("skip"):
             continue
         if r.get("error"):
-            ctx.violation("the implementation raised during a concurrent batch", {"seed": r["seed"], "error": r["error"]})
+            ctx.violation("the implementation raised during a concurrent batch", {"case_seed": r["seed"], "error": r["error"]})
             continue
         if r.get("deadlock"):
-            ctx.violation("concurrent commands did not all complete (deadlock or starvation)", dict(r["deadlock"], seed=r["seed"]))
+            ctx.violation("concurrent commands did not all complete (deadlock or starvation)", dict(r["deadlock"], case_seed=r["seed"]))
             continue
         kinds = sorted(c[0] for c in r["cmds"])
-        ctx.count({"seed": r["seed"], "commands": [repr(c) for c in r["cmds"]], "prefix_len": len(r["prefix"])},
+        ctx.count({"case_seed": r["seed"], "commands": [repr(c) for c in r["cmds"]], "prefix_len": len(r["prefix"])},
                   nontrivial=len(set(kinds)) > 1 or "expunge" in kinds)
         if r["timed_out"] or r["elapsed"] >= 100:
             ctx.violation("a concurrent command was finished by the watchdog / took implausibly long",
-                          {"seed": r["seed"], "commands": [repr(c) for c in r["cmds"]], "elapsed": r["elapsed"]})
+                          {"case_seed": r["seed"], "commands": [repr(c) for c in r["cmds"]], "elapsed": r["elapsed"]})
         for (k, d) in (r["stream_oracle"] + r["uid_oracle"])[:1]:
             ctx.violation("after a concurrent batch a session's view is illegal or stale: " + d,
-                          {"seed": r["seed"], "prefix": [repr(o) for o in r["prefix"]], "commands": [repr(c) for c in r["cmds"]]})
+                          {"case_seed": r["seed"], "prefix": [repr(o) for o in r["prefix"]], "commands": [repr(c) for c in r["cmds"]]})
         good.append(r)
     # linearizability against the proved sequential model, inside Coq
     texts, groups = [], []
@@ -277,7 +279,8 @@ def schedule_level(ctx):
         t = mboxx.MODEL_HDR + "From Asimap Require Import Model.Linear.\n"
         for j, r in enumerate(g):
             ps, pn, pd = r["pack"]
-            cm = clist([atoms_term(i, op, tg, mk) for i, (op, tg, mk) in enumerate(zip(r["cmds"], r["tagged"], r["moveok"]))])
+            cm = clist([atoms_term(i, op, tg, mk, dt) for i, (op, tg, mk, dt) in
+                        enumerate(zip(r["cmds"], r["tagged"], r["moveok"], r["data"]))])
             t += (f"Definition lin_{j} := linearizable_steps (init_world {ps} {pn} {pd}) {clist([mboxx.c_op(o) for o in r['prefix']])} "
                   f"{cm} {digest_term(r['final'])}.\n")
         t += "Eval vm_compute in " + clist([f"lin_{j}" for j in range(len(g))]) + ".\n"
@@ -292,8 +295,9 @@ def schedule_level(ctx):
                 nonlin += 1
                 if nonlin <= 3:
                     ctx.violation("no sequential order of the concurrently issued commands explains the results",
-                                  {"seed": r["seed"], "prefix": [repr(o) for o in r["prefix"]],
+                                  {"case_seed": r["seed"], "prefix": [repr(o) for o in r["prefix"]],
                                    "concurrent_commands": [repr(c) for c in r["cmds"]], "tagged_results": [repr(t) for t in r["tagged"]],
+                                   "data_sent_to_issuers": [[repr(x) for x in d] for d in r["data"]],
                                    "final_mailboxes": {k: {"uids": v2["uids"], "seqs": v2["seqs"]} for k, v2 in r["final"].items()},
                                    "how": "schedule = seeded jitter on every I/O completion (seed ^ 0x5A5A) + arrival offsets"})
     ctx.extra["concurrent_batches"] = len(good)
